@@ -897,6 +897,26 @@ pub fn gen_request_for(rng: &mut Rng, g: &GSchema) -> Request {
     } else {
         og.selection_set(&root, 1)
     };
+    if op_kind != "subscription" && og.rng.chance(1, 40) {
+        // a wide root selection set: 40 … 150 more response keys (size thresholds in collecting,
+        // grouping and in the response map)
+        let fields = og.g.fields_of(&root).to_vec();
+        let k = og.rng.range(40, 150);
+        let mut extra = String::new();
+        for i in 0..k {
+            if fields.is_empty() || og.rng.chance(1, 4) {
+                let _ = write!(extra, "w{i}: __typename ");
+            } else {
+                let f = og.rng.pick(&fields).clone();
+                let args = og.args_for(&f, 1 + (i % 2));
+                let inner = f.ty.inner_name().to_string();
+                let sub = if og.g.is_composite(&inner) { " { __typename }" } else { "" };
+                let _ = write!(extra, "w{i}: {}{args}{sub} ", f.name);
+            }
+        }
+        let pos = body.rfind('}').unwrap();
+        body.insert_str(pos, &extra);
+    }
     if op_kind == "query" && og.rng.chance(1, 5) {
         // schema introspection meta-fields on the query root
         let extra = match og.rng.below(4) {
